@@ -365,7 +365,7 @@ def signals_masked(fa, incons):
 
 
 CLAIM = {
-    "text": "Exhaustive enumeration of the interruption points of the standard sampler's iteration: a forward dataflow over the CFG of consume_sample (with insert_live_point's two stores and the call tree that runs inside it) assigns every statement boundary the vector (integrated, recorded, iteration, shifted, replaced, index-recorded); a boundary is consistent iff all counters agree, which is what a synchronously pickling signal handler observes. Decides: handler shape (three signals -> safe_exit -> close pool -> forced checkpoint -> sys.exit(exit_code)); INS refuses non-periodic checkpoints and writes its periodic/final ones at iteration boundaries; every periodic-checkpoint call site lies at a consistent boundary; and reports every maximal inconsistent window keyed by the order of effects in it. On this tree exactly one window exists (state.increment .. insertion_indices.append) plus the checkpoint_on_training site inside it: a genuine defect recorded as known findings F5a/F5b; any other or reordered window is a fresh violation. terminate_run leaves `periodic` at its False default (force= is irrelevant on that path). The signal-time checkpoint pickles the state as it is: no __getstate__ swaps an attribute for a different value (C13.5, shared with C12.1).",
+    "text": "Exhaustive enumeration of the interruption points of the standard sampler's iteration: a forward dataflow over the CFG of consume_sample (with insert_live_point's two stores and the call tree that runs inside it) assigns every statement boundary the vector (integrated, recorded, iteration, shifted, replaced, index-recorded); a boundary is consistent iff all counters agree, which is what a synchronously pickling signal handler observes. Decides: handler shape (three signals -> safe_exit -> close pool -> forced checkpoint -> sys.exit(exit_code)); INS refuses non-periodic checkpoints and writes its periodic/final ones at iteration boundaries; every periodic-checkpoint call site lies at a consistent boundary; and reports every maximal inconsistent window keyed by the order of effects in it. On this tree exactly one window exists (state.increment .. insertion_indices.append) plus the checkpoint_on_training site inside it: a genuine defect recorded as known findings F5a/F5b; any other or reordered window is a fresh violation. terminate_run leaves `periodic` at its False default (force= is irrelevant on that path). The signal-time checkpoint pickles the state as it is: no __getstate__ swaps an attribute for a different value (C13.5, shared with C12.1). A checkpoint call returns without pickling only on the periodic path: the forced, signal-time checkpoint is always written (C13.1).",
     "note": "Signal delivery is modelled at statement boundaries of the main thread (Python handlers run between bytecodes; C calls are atomic w.r.t. the handler). Accepted window-closing idioms: a handler that does not reach checkpoint synchronously (deferral) or pthread_sigmask bracketing. Does not decide the validity of the resumed run's results.",
 }
 
